@@ -40,6 +40,7 @@ FROM_CODE = {
     "slice-same-bounds": "[a:a] on a sequence is a one-element virtual list (content compared only)",
     "slice-non-integer": "non-integer slice bounds on a sequence raise TypeMismatchYAMLPathException",
     "slice-on-set": "SLICE on a set selects the members between the bounds",
+    "slice-nontext-key": "hash slicing compares a non-text key by its text",
     "anchor-on-map": "ANCHOR on a map: value whose key, else whose value, carries the anchor",
     "anchor-merge-source": "ANCHOR on a map yields the merged source carrying that anchor first",
     "anchor-on-set": "ANCHOR on a set selects members carrying the anchor",
@@ -390,19 +391,25 @@ def _slice(lo, hi, r, ctx, base):
         return [Result(VList(elems, wrapped=(a != b)), node, a, True, base)]
     if is_map(node):
         # D: "Hash slicing: hash[min:max] ... alphanumeric terms between which the Hash's keys are compared"
+        # C: a key that is not text is compared by its text (the documentation only demands "no crash")
         lo_t, hi_t = str(lo), str(hi)
-        if any(not isinstance(k, str) for k in node.keys()):
-            raise SpecUndefined("hash slice over non-text keys")
         ctx.trace.add("slice/map")
-        return [Result(v, node, k, False, base) for k, v in node.items() if lo_t <= k <= hi_t]
+        out = []
+        for k, v in node.items():
+            if isinstance(k, str):
+                if lo_t <= k <= hi_t:
+                    out.append(Result(v, node, k, False, base))
+            elif lo_t <= str(k) <= hi_t:
+                out.append(Result(v, node, k, False, base | frozenset(["slice-nontext-key"])))
+            else:
+                ctx.suppressed.add("slice-nontext-key")
+        return out
     if is_set(node):
         # C: members between the bounds
         lo_t, hi_t = str(lo), str(hi)
-        if any(not isinstance(m, str) for m in node):
-            raise SpecUndefined("set slice over non-text members")
         ctx.trace.add("slice/set")
         tags = base | frozenset(["slice-on-set"])
-        return [Result(m, node, m, False, tags) for m in node if lo_t <= m <= hi_t]
+        return [Result(m, node, m, False, tags) for m in node if lo_t <= str(m) <= hi_t]
     return []
 
 
